@@ -719,7 +719,9 @@ theorem sb_lexParts {n h0} (g : Grow) : ∀ (ps : List Part) (st st' : SB),
         refine ih _ _ ?_ e
         split
         · exact sb_addLit g i1 _
-        · exact sb_addLit g i1 _
+        · split
+          · exact sb_addLit g i1 _
+          · exact i1
     | nilp => exact ih _ _ (sb_addLit g i _) (by simpa only [lexParts] using e)
     | other t => exact ih _ _ (sb_addLit g i _) (by simpa only [lexParts] using e)
     | brace b => exact ih _ _ (sb_addLit g i _) (by simpa only [lexParts] using e)
@@ -754,21 +756,19 @@ structure FrExcept (h h' : Heap) (w : Nat) : Prop where
 
 theorem splitBraces_good (g : Grow) (h : Heap) (w : Nat) {h' : Heap} {b : Bool}
     (e : splitBraces g h w = some (h', b)) :
-    FrExcept h h' w ∧ (b = false → h' = h) := by
+    FrExcept h h' w ∧ (b = false → h'.words[w]? = h.words[w]? ∨ h.words.length ≤ w) := by
   unfold splitBraces at e
   simp only at e
   split at e
   · simp only [Option.some.injEq, Prod.mk.injEq] at e
     rw [← e.1]
-    exact ⟨⟨fun _ _ _ => rfl, Nat.le_refl _, ListFr.refl (Nat.le_refl _), ListFr.refl (Nat.le_refl _)⟩, fun _ => rfl⟩
+    exact ⟨⟨fun _ _ _ => rfl, Nat.le_refl _, ListFr.refl (Nat.le_refl _), ListFr.refl (Nat.le_refl _)⟩, fun _ => Or.inl rfl⟩
   · split at e
     · cases e
     · next st hlex =>
       split at e
       · cases e
       · next st1 hclose =>
-        simp only [Option.some.injEq, Prod.mk.injEq] at e
-        have n : Sizes := sizesOf h
         have g0 : Good (sizesOf h) h h :=
           ⟨HFr.refl (Nat.le_refl _) (Nat.le_refl _) (Nat.le_refl _),
            ⟨fun w' hw' => by
@@ -788,15 +788,24 @@ theorem splitBraces_good (g : Grow) (h : Heap) (w : Nat) {h' : Heap} {b : Bool}
           ⟨w1.1, w1.2, w1.2, by intro b hb; cases hb⟩
         have i1 := sb_lexParts g _ _ _ i0 hlex
         have i2 := sb_closeOpen g _ _ _ i1 hclose
-        rw [← e.1]
-        refine ⟨⟨?_, ?_, i2.good.fr.braces, i2.good.fr.parr⟩, fun hb => by rw [← e.2] at hb; cases hb⟩
-        · intro i hi hne
-          simp only [setWord, List.getElem?_set]
-          have hne' : ¬ w = i := fun x => hne x.symm
-          simp only [hne', if_false]
-          exact i2.good.fr.words.getElem? hi
-        · simp only [setWord, List.length_set]
-          exact i2.good.fr.words.1
+        split at e
+        · -- no brace expression: nothing that existed is written, the word included
+          simp only [Option.some.injEq, Prod.mk.injEq] at e
+          rw [← e.1]
+          refine ⟨⟨fun i hi _ => i2.good.fr.words.getElem? hi, i2.good.fr.words.1, i2.good.fr.braces, i2.good.fr.parr⟩, fun _ => ?_⟩
+          by_cases hw : w < h.words.length
+          · exact Or.inl (i2.good.fr.words.getElem? hw)
+          · exact Or.inr (by omega)
+        · simp only [Option.some.injEq, Prod.mk.injEq] at e
+          rw [← e.1]
+          refine ⟨⟨?_, ?_, i2.good.fr.braces, i2.good.fr.parr⟩, fun hb => by rw [← e.2] at hb; cases hb⟩
+          · intro i hi hne
+            simp only [setWord, List.getElem?_set]
+            have hne' : ¬ w = i := fun x => hne x.symm
+            simp only [hne', if_false]
+            exact i2.good.fr.words.getElem? hi
+          · simp only [setWord, List.length_set]
+            exact i2.good.fr.words.1
 
 /-! ### FieldsSeq's copy, bracesSeqRec -/
 
